@@ -138,7 +138,7 @@ def run(ctx):
                race_detector_reports=races if ctx.prop == "C11" else None, exhaustive=False, apalache_inductive_invariant=apa,
                run_configs={k: v for st in stats for k, v in st["extra"].items()})
     assumptions = ["TLC/SANY/Json module trusted", "sync.Pool's choice between a pooled and a new buffer is nondeterministic in the model and bound by the logged identity",
-                   "the harness keeps every buffer referenced, so pointer identity is storage identity"]
+                   "the harness keeps every buffer referenced, so pointer identity is storage identity (when it deliberately drops an original after reslicing from frame 0, the identity follows the slice and the forgotten pointer is unregistered)"]
     if ctx.prop == "C11":
         assumptions += ["the clause 'no data race occurs' is decided by the Go race detector monitoring these runs, not by TLC",
                         "tickets: taken after Get returns and before Put is called (one atomic counter), never wall clock"]
